@@ -71,9 +71,7 @@ UpdatedRoot(h, sc, sz, ls) ==
     LET d == SiftDown(h, sc, 0, 1, sz, ls) IN SiftUpLe(d[1], sc, d[2], ls)
 
 \* heapGetTop2 on heap h
-Top2(h, ls) ==
-    LET h0 == h[1]  h1 == h[2]  h2 == h[3]
-    IN  <<h0, IF SLt(scalars[h1 + 1], scalars[h2 + 1], ls) THEN h2 ELSE h1>>
+Top2(h, ls) == <<h[1], IF SLt(scalars[h[2] + 1], scalars[h[3] + 1], ls) THEN h[3] ELSE h[2]>>
 
 HInit(scs, pts, cnt) ==
     /\ scalars = scs /\ points = pts /\ count = cnt
@@ -91,34 +89,42 @@ Build ==
     /\ pc' = "loop"
     /\ UNCHANGED <<scalars, points, limbSize, extended, count, max1, max2, hevs, res>>
 
-\* one iteration of the for loop (:227-250)
+\* one iteration of the for loop (:227-250).  The intermediate values are passed through helper
+\* operators (It1..It5) rather than LET-bound: TLC re-evaluates a LET name on every reference.
+It5(ls, ext, h1, sz1, m1, m2, nsc) ==
+    /\ limbSize' = ls
+    /\ extended' = (extended \/ ext)
+    /\ size' = sz1
+    /\ max1' = m1 /\ max2' = m2
+    /\ hevs' = Append(hevs, <<0, m1, m2, ls, extended \/ ext>>)
+    /\ scalars' = nsc
+    /\ points' = [points EXCEPT ![m2 + 1] = PAdd(points[m2 + 1], points[m1 + 1])]
+    /\ heap' = UpdatedRoot(h1, nsc, sz1, ls)
+    /\ pc' = "loop"
+
+It4(ls, ext, h1, sz1, t1) ==
+    It5(ls, ext, h1, sz1, t1[1], t1[2], [scalars EXCEPT ![t1[1] + 1] = SSub(scalars[t1[1] + 1], scalars[t1[2] + 1], ls)])
+
+\* after an extension the two largest are looked up again (with the possibly decremented limb size)
+It3(ls, ext, h1, sz1, t) ==
+    It4(ls, ext, h1, sz1,
+        IF ext THEN <<h1[1], IF SLt(scalars[h1[2] + 1], scalars[h1[3] + 1], ls) THEN h1[3] ELSE h1[2]>> ELSE t)
+
+It2(t, ls, ext) == It3(ls, ext, IF ext THEN InsertUpTo(heap, size, count) ELSE heap, IF ext THEN count ELSE size, t)
+
+It1(t) ==
+    IF SIsZero(scalars[t[2] + 1])
+    THEN \* only one scalar remaining
+         /\ max1' = t[1] /\ max2' = t[2]
+         /\ hevs' = Append(hevs, <<1, t[1], t[2], limbSize, extended>>)
+         /\ pc' = "final"
+         /\ UNCHANGED <<scalars, points, heap, size, limbSize, extended>>
+    ELSE It2(t, IF SLimbIsZero(scalars[t[1] + 1], limbSize) THEN limbSize - 1 ELSE limbSize,
+             ~extended /\ SAtMost128(scalars[t[1] + 1]))
+
 Iterate ==
     /\ pc = "loop"
-    /\ LET t == Top2(heap, limbSize)
-       IN  IF SIsZero(scalars[t[2] + 1])
-           THEN \* only one scalar remaining
-                /\ max1' = t[1] /\ max2' = t[2]
-                /\ hevs' = Append(hevs, <<1, t[1], t[2], limbSize, extended>>)
-                /\ pc' = "final"
-                /\ UNCHANGED <<scalars, points, heap, size, limbSize, extended>>
-           ELSE LET ls  == IF SLimbIsZero(scalars[t[1] + 1], limbSize) THEN limbSize - 1 ELSE limbSize
-                    ext == ~extended /\ SAtMost128(scalars[t[1] + 1])
-                    h1  == IF ext THEN InsertUpTo(heap, size, count) ELSE heap
-                    sz1 == IF ext THEN count ELSE size
-                    t1  == IF ext THEN LET hh == h1 IN
-                                       <<hh[1], IF SLt(scalars[hh[2] + 1], scalars[hh[3] + 1], ls) THEN hh[3] ELSE hh[2]>>
-                           ELSE t
-                    m1  == t1[1]   m2 == t1[2]
-                    nsc == [scalars EXCEPT ![m1 + 1] = SSub(scalars[m1 + 1], scalars[m2 + 1], ls)]
-                IN  /\ limbSize' = ls
-                    /\ extended' = (extended \/ ext)
-                    /\ size' = sz1
-                    /\ max1' = m1 /\ max2' = m2
-                    /\ hevs' = Append(hevs, <<0, m1, m2, ls, extended \/ ext>>)
-                    /\ scalars' = nsc
-                    /\ points' = [points EXCEPT ![m2 + 1] = PAdd(points[m2 + 1], points[m1 + 1])]
-                    /\ heap' = UpdatedRoot(h1, nsc, sz1, ls)
-                    /\ pc' = "loop"
+    /\ It1(Top2(heap, limbSize))
     /\ UNCHANGED <<count, res>>
 
 \* multiScalarmultVartimeFinal: reads limbs 0..Limb128 of the remaining scalar only
